@@ -168,9 +168,16 @@ class AliasClass:
         avars = self.alias_vars(f, pid)
         problems = []
         seen = set()
+        # the parameter as the target of a plain assignment is written, not read
+        lhs_nodes = set()
+        for e in fn_exprs(f):
+            if e.get('k') == 'bin' and e.get('op') == '=':
+                l = strip_lv(e['x'])
+                if l.get('k') == 'var' and l.get('id') == pid:
+                    lhs_nodes.add(id(l))
 
         def reads_param(e):
-            return e.get('k') == 'var' and e.get('id') == pid
+            return e.get('k') == 'var' and e.get('id') == pid and id(e) not in lhs_nodes
 
         def step(n, st):
             # st in 'fresh', 'stale', 'safe'
